@@ -42,4 +42,13 @@ def covered (succ : List (List Nat)) (entries : List Nat) (sites : List (Nat × 
   keys.all fun k => paths.any fun p =>
     validPath succ entries p && (match p.getLast? with | some n => sites.contains (n, k) | none => false)
 
+/-- Linear variant: the i-th path ends at a site carrying the i-th key (keys and paths are both in key order). -/
+def coveredZip (succ : List (List Nat)) (entries : List Nat) (sites : List (Nat × String)) :
+    List (List Nat) → List String → Bool
+  | [], [] => true
+  | p :: ps, k :: ks =>
+    validPath succ entries p && (match p.getLast? with | some n => sites.contains (n, k) | none => false) &&
+      coveredZip succ entries sites ps ks
+  | _, _ => false
+
 end Poly.Model.CallGraph
